@@ -29,4 +29,19 @@ PROPS = {
             "atomicity/rollback of Update on drivers without transactions (Pebble, LevelDB) is outside the ordered-map statement",
         ],
     },
+    "C03": {
+        "trusted_base": [
+            "modelled, not verified: kvgraph/graph.go, graphdb.go, index.go, new.go, the part of kvindex/kvindex.go kvgraph uses (AddField/RemoveField/AddDocTx/GetTermMatch/FieldTerms), timestamp/timestamp.go, and the validation/existence guards of server/api.go, all at the level of structured keys (tuples of identifiers); the byte encoding of keys is Model/Keys.v (C16), the store below is Model/KV.v (C10)",
+            "protobuf (de)serialisation of vertex/edge records is the identity in the model",
+            "real-clock timestamps are compared only as changed/unchanged",
+        ],
+        "assumptions": ["identifiers contain no 0x00 byte (C16 decides that)", "universe of the correspondence: 2 graphs, 3 vertex ids, 3 edge ids, 2 labels, 3 data values + invalid variants"],
+    },
+    "C04": {
+        "trusted_base": [
+            "same model as C03 plus reopen (kvgraph.NewKVGraph over the persisted store: registry reloaded from the f| keys, every listed graph touched) and crash (only the first n top-level key-value calls of a mutation happen; each call is atomic in the store)",
+            "crash injection in the correspondence check is a kvi.KVInterface wrapper in the harness that refuses top-level writes after a budget, followed by close and reopen; a kill -9 of a real process and fsync behaviour of the storage libraries are not exercised",
+        ],
+        "assumptions": ["each top-level key-value call (Set/Delete/DeletePrefix/Update/BulkWrite) is atomic and durable once it returns (true of Badger; Pebble and LevelDB Update is not transactional)"],
+    },
 }
